@@ -14,6 +14,12 @@ CHECKS = {
  "C12": dict(technique="static analysis: path-order rules over enumerated MIR paths (must-pass-through), error-value census, public-API census",
    text="Ordering and census properties that make the statement hold on every input: decoder only after authentication success, validator only after decode success, backends return only unit error variants, PayloadError constructed only at reviewed sites, footer reachable only via unverified_footer.",
    ref="DESIGN.md §4 C12"),
+ "C05": dict(technique="static analysis: summary composition wrap∘unwrap through paseto-core generics (PIE, PBKW, PKE incl. DH / RSA-KEM term algebra), fixed-width layout, Err-exit and parameter-rejection classification",
+   text="For 6 backends x {PIE, PBKW, PKE}: the wrap/seal summary and the unwrap/unseal summary are composed symbolically and must cancel (tag check compares identical constructions, decoder receives exactly the encoded key / the sealed key comes back), the blob is fixed-width fields plus the key field with the overhead the format prescribes, no variable-length integer encoding reaches an output field unpadded, wrap paths fail only for environmental reasons or reviewed parameter rejections.",
+   ref="DESIGN.md §4 C05"),
+ "C06": dict(technique="static analysis: symbolic summaries of the 18 unwrap/unseal-key impls; partition / coverage-as-received / full-width-compare / verify-before-release path rules",
+   text="For every undo function: blob exactly partitioned into authenticated regions + tag, transcript starts with the PASERK version literal and kind header and contains every region as received (unmodified), full-width tag comparison, verification before decryption/Ok on all paths, MAC key bound to wrapping key / password / recipient key, paseto-core passes the kind's header constant. MAC/DH security assumed.",
+   ref="DESIGN.md §4 C06"),
 }
 NA = {}
 m = {"version": 1,
